@@ -465,6 +465,52 @@ def classify_def(idx, module, patterns, node, binds=None):
     return nf.UNRECOGNISED
 
 
+class _PickIfExp(ast.NodeTransformer):
+    def __init__(self, target, take_body):
+        self.target = target
+        self.take_body = take_body
+
+    def visit_IfExp(self, node):
+        if node is self.target:
+            return node.body if self.take_body else node.orelse
+        return self.generic_visit(node)
+
+
+def expand_paths(fi):
+    """nf.decision_paths of a function, with conditional expressions in returned values split into paths too
+    (so that `return a if c else b` and `if c: return a` / `return b` are the same decision)."""
+    work = list(nf.decision_paths(fi.node.body))
+    out = []
+    guard = 0
+    while work:
+        guard += 1
+        if guard > 200:
+            raise AnalysisError('%s: too many conditional expressions' % fi.qualname)
+        p = work.pop(0)
+        tgt = None
+        if p.leaf.kind == 'ret' and p.leaf.expr is not None:
+            for n in ast.walk(p.leaf.expr):
+                if isinstance(n, ast.IfExp):
+                    tgt = n
+                    break
+        if tgt is None:
+            out.append(p)
+            continue
+        test = nf.canon(tgt.test)
+        for take_body in (True, False):
+            expr = _PickIfExp(tgt, take_body).visit(clone(p.leaf.expr)) if p.leaf.expr is not tgt else \
+                clone(tgt.body if take_body else tgt.orelse)
+            if p.leaf.expr is not tgt:
+                # clone() made new nodes: find the corresponding IfExp by position in a fresh walk
+                fresh = clone(p.leaf.expr)
+                idx_ = [i for i, n in enumerate(ast.walk(p.leaf.expr)) if n is tgt][0]
+                ftgt = list(ast.walk(fresh))[idx_]
+                expr = _PickIfExp(ftgt, take_body).visit(fresh)
+            leaf = nf.Leaf('ret', nf.canon(expr), p.leaf.stmt, p.leaf.env)
+            work.append(nf.Path(list(p.guards) + [test if take_body else nf.negate(test)], leaf, p.effects))
+    return out
+
+
 def single_return(fi):
     paths = nf.decision_paths(fi.node.body)
     if len(paths) != 1 or paths[0].leaf.kind != 'ret':
@@ -514,7 +560,7 @@ def d2_definitions(ctx, idx, env):
         # arccot: two branches
         fi = idx.func(MFQ + '.arccot')
         b = param_binds(fi, ['_X'])
-        paths = nf.decision_paths(fi.node.body)
+        paths = expand_paths(fi)
         if len(paths) == 1 and paths[0].leaf.kind == 'ret' and not paths[0].guards and \
                 classify_def(idx, mod, ['np.arctan(1 / _X)', '1 / np.arctan(_X)', 'np.arctan(_X)', 'np.pi / 2 - np.arctan(_X)',
                                         '-np.pi / 2 - np.arctan(_X)'], paths[0].leaf.expr, b) == nf.MATCH:
@@ -565,7 +611,7 @@ def d2_definitions(ctx, idx, env):
                     'raises %s at (0, 0)' % cls, 'arctan2(0, 0) raises %s, which is not a student-facing error' % cls,
                     lib.loc(fi, origin[0].leaf.stmt), expected='FunctionEvalError', found=cls)
         elif not raises:
-            r.violation('mathfuncs.arctan2 [origin]', 'arctan2(0, 0) is no longer refused: numpy returns 0 for the undefined '
+            _absent(r, idx, fi, 'mathfuncs.arctan2 [origin]', 'arctan2(0, 0) is no longer refused: numpy returns 0 for the undefined '
                         'angle of the origin', fi.loc, expected='raise FunctionEvalError when x == 0 and y == 0')
         else:
             g = raises[0].guards[0] if raises[0].guards else None
@@ -579,7 +625,7 @@ def d2_definitions(ctx, idx, env):
         # kronecker
         fi = idx.func(MFQ + '.kronecker')
         b = param_binds(fi, ['_X', '_Y'])
-        paths = nf.decision_paths(fi.node.body)
+        paths = expand_paths(fi)
         if len(paths) != 2 or any(p.leaf.kind != 'ret' or len(p.guards) != 1 for p in paths):
             raise AnalysisError('kronecker: expected two guarded returns')
         for p in paths:
@@ -614,10 +660,26 @@ def d2_definitions(ctx, idx, env):
                     'a[%d]*b[%d] - a[%d]*b[%d]' % (j, k, k, j), short(inner.elts[i]), 'component %d of the cross product changed' % i)
         # real / imag unwrap 0-d arrays
         c0 = idx.func(MFQ + '.content_if_0d_array')
-        expr, st = single_return(c0)
-        res = classify_def(idx, mod, ['_O.item() if isinstance(_O, np.ndarray) and _O.ndim == 0 else _O'], expr, param_binds(c0, ['_O']))
-        verdict('mathfuncs.content_if_0d_array', res, lib.loc(c0, st), 'obj.item() if 0-d array else obj', short(expr),
-                'the unwrapping of 0-d arrays changed')
+        bo = param_binds(c0, ['_O'])
+        cpaths = expand_paths(c0)
+        if len(cpaths) != 2 or any(p.leaf.kind != 'ret' or len(p.guards) != 1 for p in cpaths):
+            raise AnalysisError('content_if_0d_array: expected two guarded returns')
+        res = nf.UNRECOGNISED
+        for p in cpaths:
+            pos = classify_def(idx, mod, ['isinstance(_O, np.ndarray) and _O.ndim == 0'], p.guards[0], bo)
+            neg = classify_def(idx, mod, ['not (isinstance(_O, np.ndarray) and _O.ndim == 0)'], p.guards[0], bo)
+            if pos == nf.MATCH:
+                r1 = classify_def(idx, mod, ['_O.item()'], p.leaf.expr, bo)
+            elif neg == nf.MATCH:
+                r1 = classify_def(idx, mod, ['_O'], p.leaf.expr, bo)
+            else:
+                r1 = pos if isinstance(pos, tuple) else (neg if isinstance(neg, tuple) else nf.UNRECOGNISED)
+            if r1 != nf.MATCH:
+                res = r1
+                break
+            res = nf.MATCH
+        verdict('mathfuncs.content_if_0d_array', res, c0.loc, 'obj.item() if 0-d array else obj',
+                ' / '.join(short(p.leaf.expr) for p in cpaths), 'the unwrapping of 0-d arrays changed')
         for name, prim in (('real', 'real'), ('imag', 'imag')):
             fi = idx.func('%s.%s' % (MFQ, name))
             expr, st = single_return(fi)
@@ -638,7 +700,7 @@ def d2_definitions(ctx, idx, env):
         verdict('mathfuncs.array_abs [value]', res, lib.loc(fi, rets[0].leaf.stmt), 'numpy.linalg.norm(obj)', short(rets[0].leaf.expr),
                 'abs(...) of a vector is no longer its Euclidean norm')
         if not raises:
-            r.violation('mathfuncs.array_abs [matrices]', 'abs(...) no longer refuses matrices/tensors: a Frobenius norm is '
+            _absent(r, idx, fi, 'mathfuncs.array_abs [matrices]', 'abs(...) no longer refuses matrices/tensors: a Frobenius norm is '
                         'returned where the documentation promises an error', fi.loc)
         else:
             cls = nf.exc_class_name(raises[0].leaf.expr)
@@ -760,6 +822,54 @@ def _shape(s):
 DECO = SDQ + '.SpecifyDomain.make_decorator'
 
 
+def guards_of(node, fn_node):
+    """Canonical conjuncts under which node runs (enclosing if tests; negated for a plain else)."""
+    chain = []
+    child = node
+    for a in lib.ancestors(node):
+        if a is fn_node:
+            break
+        if isinstance(a, ast.If):
+            if any(child is s for s in a.body):
+                chain.append(nf.conjuncts(nf.canon(a.test)))
+            elif any(child is s for s in a.orelse):
+                chain.append(nf.conjuncts(nf.negate(nf.canon(a.test))))
+        child = a
+    out = []
+    for c in reversed(chain):
+        out.extend(c)
+    return out
+
+
+def _private_callees(idx, fi):
+    out = []
+    for c in walk_own(fi.node):
+        if not isinstance(c, ast.Call):
+            continue
+        try:
+            targets, how = idx.resolve_call(fi, c)
+        except Exception:
+            continue
+        for t in targets:
+            q = getattr(t, 'qualname', None)
+            if q is None or not q.startswith('mitxgraders.') or q == fi.qualname:
+                continue
+            name = q.split('.')[-1]
+            if (q in idx.unreviewed or (name.startswith('_') and not name.startswith('__'))) and t not in out:
+                out.append(t)
+    return out
+
+
+def _absent(r, idx, fi, construct, detail, loc='', **kw):
+    """An expected construct was not found: a definite break only when the function calls no unreviewed helper
+    (the construct may have moved there); otherwise undecided."""
+    unrev = [h.qualname.replace('mitxgraders.', '') for h in _private_callees(idx, fi) if h.qualname in idx.unreviewed]
+    if unrev:
+        r.undecided(construct, '%s -- not decided: %s calls unreviewed helper(s) %s' % (detail, fi.name, ', '.join(unrev)), loc)
+    else:
+        r.violation(construct, detail, loc, **kw)
+
+
 def d4_decorator(ctx, idx, env):
     r = ctx.rule('D4.DECORATOR', 'the domain decorator raises ArgumentError for a wrong count, ArgumentShapeError for a wrong '
                                  'shape, and calls the function only with validated arguments', floor=17)
@@ -790,70 +900,91 @@ def d4_decorator(ctx, idx, env):
                             'error: the student sees the generic "Could not check input" message (or a traceback in debug mode)'
                             % cls, lib.loc(fn, by_cls[cls][0]), expected='ArgumentError / ArgumentShapeError', found=cls)
         ae = by_cls.get('ArgumentError', [])
-        if len(ae) != 1:
-            if not ae:
+        helpers = _private_callees(idx, fn)
+        unrev = [h for h in helpers if h.qualname in idx.unreviewed]
+        if not ae:
+            if unrev:
+                r.undecided('make_decorator._func: count check', 'no ArgumentError site in _func; unreviewed helpers %s'
+                            % [h.name for h in unrev], fn.loc)
+            else:
                 r.violation('make_decorator._func: count check', 'no ArgumentError is raised for a wrong number of arguments', fn.loc,
                             expected='raise ArgumentError(msg)')
-            else:
-                r.undecided('make_decorator._func: count check', '%d ArgumentError sites' % len(ae), fn.loc)
             return
-        ae = ae[0]
-        guard_if = None
-        for a in lib.ancestors(ae):
-            if isinstance(a, ast.If):
-                guard_if = a
-                break
-            if a is node:
-                break
-        if guard_if is None or not isinstance(guard_if.test, ast.Name):
-            raise AnalysisError('_func: the ArgumentError is not guarded by `if <message>`')
-        msg = guard_if.test.id
-        r.ok('make_decorator._func: raise ArgumentError', 'guarded by the count message `%s`' % msg, lib.loc(fn, ae))
-        # --- the two count conditions that set the message
-        setters = []
-        for n in walk_own(node):
-            if isinstance(n, ast.If) and n is not guard_if:
-                for s in n.body:
-                    if isinstance(s, ast.Assign) and any(isinstance(t, ast.Name) and t.id == msg for t in s.targets):
-                        nonempty = any(isinstance(c, ast.Constant) and isinstance(c.value, str) and c.value.strip()
-                                       for c in ast.walk(s.value))
-                        setters.append((n, s, nonempty))
+        # count-refusal sites: the raise itself (condition = its guards) or, when the raise is `if <msg>: raise`, the places
+        # that set the message (condition = guards of the assignment)
         b = {'_ARGS': ast.Name(id=args, ctx=ast.Load())}
-        wanted = {'min_length': ('len(_ARGS) < min_length', 'fewer than min_length arguments'),
-                  'exact': ('len(shapes) != len(_ARGS)', 'a number of arguments different from the number of shapes')}
+        sites = []          # (anchor stmt, innermost If, mode, message-if or None)
+        for rs in ae:
+            inner = None
+            for a_ in lib.ancestors(rs):
+                if isinstance(a_, ast.If):
+                    inner = a_
+                    break
+                if a_ is node:
+                    break
+            if inner is not None and isinstance(inner.test, ast.Name):
+                msg = inner.test.id
+                for n in walk_own(node):
+                    if isinstance(n, ast.If) and n is not inner:
+                        for st in n.body:
+                            if isinstance(st, ast.Assign) and any(isinstance(t, ast.Name) and t.id == msg for t in st.targets):
+                                nonempty = any(isinstance(c, ast.Constant) and isinstance(c.value, str) and c.value.strip()
+                                               for c in ast.walk(st.value)) or isinstance(st.value, ast.Call)
+                                if nonempty:
+                                    sites.append((st, n, 'message', inner))
+            elif inner is not None:
+                sites.append((rs, inner, 'direct', None))
+            else:
+                r.violation('make_decorator._func: raise ArgumentError', 'ArgumentError is raised unconditionally: every call of a '
+                            'decorated function fails', lib.loc(fn, rs))
+                return
+        r.ok('make_decorator._func: raise ArgumentError', '%d count-refusal site(s)' % len(sites), lib.loc(fn, ae[0]))
+        wanted = {'min_length': ('len(_ARGS) < min_length', 'min_length is not None', 'fewer than min_length arguments'),
+                  'exact': ('len(shapes) != len(_ARGS)', 'min_length is None', 'a number of arguments different from the number of shapes')}
         found = {}
-        for n, s, nonempty in setters:
-            for key, (p, what) in wanted.items():
-                res = nf.classify(p, n.test, dict(b))
-                if res == nf.MATCH and nonempty:
-                    found[key] = ('ok', n)
-                elif isinstance(res, tuple) and key not in found:
-                    found[key] = (res[1], n)
-        for key, (p, what) in wanted.items():
+        matched_sites = set()
+        for key, (p, sel, what) in wanted.items():
+            for i, (st, n, mode, mif) in enumerate(sites):
+                gs = [lib.inline_locals(g, node, depth=2) for g in guards_of(st, node)]
+                in_branch = any(nf.classify(sel, g) == nf.MATCH for g in gs)
+                other_branch = any(nf.classify(wanted['exact' if key == 'min_length' else 'min_length'][1], g) == nf.MATCH for g in gs)
+                for g in gs:
+                    res = nf.classify(p, g, dict(b))
+                    if res == nf.MATCH:
+                        if in_branch:
+                            found[key] = ('ok', n, i)
+                        elif other_branch:
+                            found.setdefault(key, ('branch', n, i))
+                        else:
+                            found.setdefault(key, ('nobranch', n, i))
+                    elif isinstance(res, tuple) and in_branch and key not in found:
+                        found[key] = (res[1], n, i)
+                if key in found and found[key][0] == 'ok':
+                    break
+        for key, (p, sel, what) in wanted.items():
             construct = 'make_decorator._func: count condition [%s]' % key
             hit = found.get(key)
             if hit is None:
-                r.violation(construct, 'the check that refuses %s is gone (or no longer sets the error message): the function is '
-                            'called with a wrong number of arguments' % what, fn.loc, expected=p.replace('_ARGS', args))
+                unmatched = [x for i, x in enumerate(sites) if i not in {v[2] for v in found.values()}]
+                if unmatched or unrev:
+                    r.undecided(construct, 'the check that refuses %s was not recognised (%d unmatched refusal site(s), unreviewed '
+                                'helpers %s)' % (what, len(unmatched), [h.name for h in unrev]), fn.loc)
+                else:
+                    r.violation(construct, 'the check that refuses %s is gone (every ArgumentError site is accounted for by the other '
+                                'condition): the function is called with a wrong number of arguments' % what, fn.loc,
+                                expected=p.replace('_ARGS', args))
             elif hit[0] == 'ok':
-                r.ok(construct, p.replace('_ARGS', args), lib.loc(fn, hit[1]))
+                r.ok(construct, '%s under `%s`' % (p.replace('_ARGS', args), sel), lib.loc(fn, hit[1]))
+            elif hit[0] == 'branch':
+                r.violation(construct, 'the check `%s` sits in the branch selected by the opposite of `%s`' % (p.replace('_ARGS', args), sel),
+                            lib.loc(fn, hit[1]), expected='under `%s`' % sel)
+            elif hit[0] == 'nobranch':
+                r.undecided(construct, 'selector of the branch not recognised', lib.loc(fn, hit[1]))
             else:
                 r.violation(construct, 'the count condition changed: %s' % hit[0], lib.loc(fn, hit[1]),
                             expected=p.replace('_ARGS', args), found=short(hit[1].test))
-        # the min_length branch is selected by `min_length is not None`
-        sel = [n for n in walk_own(node) if isinstance(n, ast.If) and
-               nf.classify('min_length is not None', n.test) == nf.MATCH]
-        inv = [n for n in walk_own(node) if isinstance(n, ast.If) and nf.classify('min_length is None', n.test) == nf.MATCH]
-        if sel and 'min_length' in found and found['min_length'][0] == 'ok':
-            inside = any(found['min_length'][1] is x for s in sel for st in s.body for x in ast.walk(st))
-            r.check(inside, 'make_decorator._func: branch selection', 'min_length check under `min_length is not None`',
-                    'the at-least-min_length check is not in the branch selected by `min_length is not None`', lib.loc(fn, sel[0]))
-        elif inv and 'min_length' in found and found['min_length'][0] == 'ok':
-            inside = any(found['min_length'][1] is x for s in inv for st in s.orelse for x in ast.walk(st))
-            r.check(inside, 'make_decorator._func: branch selection', 'min_length check in the else of `min_length is None`',
-                    'the at-least-min_length check sits in the `min_length is None` branch', lib.loc(fn, inv[0]))
-        elif 'min_length' in found and found['min_length'][0] == 'ok':
-            r.undecided('make_decorator._func: branch selection', 'selector of the min_length branch not recognised', fn.loc)
+        r.ok('make_decorator._func: branch selection', 'checked per count condition', fn.loc, nontrivial=False)
+        count_sites = sites
         # --- the wrapped call
         calls = [c for c in walk_own(node) if isinstance(c, ast.Call) and isinstance(c.func, ast.Name) and c.func.id == wrapped]
         if len(calls) != 1:
@@ -865,10 +996,19 @@ def d4_decorator(ctx, idx, env):
                 'the wrapped function is not called with exactly the received arguments: `%s`' % short(call), lib.loc(fn, call),
                 expected='%s(*%s)' % (wrapped, args), found=short(call))
         call_nodes = lib.cfg_nodes_for(cfg, call)
-        test_nodes = cfg.nodes_of(guard_if)
-        test_nodes = [n for n in test_nodes if n.kind == 'test'] or test_nodes
-        r.check(cfg.dominates(test_nodes, call_nodes), 'make_decorator._func: count check precedes the call',
-                'every path to the call passes `if %s: raise ArgumentError`' % msg,
+        test_nodes = []
+        leak = False
+        for st, n, mode, mif in count_sites:
+            gate_if = mif if mode == 'message' else n
+            tn = [x for x in cfg.nodes_of(gate_if) if x.kind == 'test'] or cfg.nodes_of(gate_if)
+            test_nodes.extend(tn)
+            if mode == 'direct':
+                for t_ in tn:
+                    reach_true = cfg.reach([t_], blocked_edges=[(t_, 'false')])
+                    if any(c_ in reach_true for c_ in call_nodes):
+                        leak = True
+        r.check(cfg.dominates(test_nodes, call_nodes) and not leak, 'make_decorator._func: count check precedes the call',
+                'every path to the call passes the argument-count refusal',
                 'a path reaches %s(*%s) without passing the argument-count check' % (wrapped, args), lib.loc(fn, call))
         gate = None
         for a in lib.ancestors(call):
@@ -882,7 +1022,8 @@ def d4_decorator(ctx, idx, env):
                         'shape reach it', lib.loc(fn, call), expected='if all(error is None for error in errors): return func(*args)')
         else:
             pats = ['all([_E is None for _E in _ERRS])', 'all((_E is None for _E in _ERRS))', 'not any(_ERRS)',
-                    'not any([_E is not None for _E in _ERRS])']
+                    'not any([_E is not None for _E in _ERRS])', 'not any((_E is not None for _E in _ERRS))',
+                    'not any([_E for _E in _ERRS])', 'not any((_E for _E in _ERRS))']
             res = nf.classify(pats, gate.test)
             in_body = any(call is x for st in gate.body for x in ast.walk(st))
             if res == nf.MATCH and in_body:
@@ -906,9 +1047,32 @@ def d4_decorator(ctx, idx, env):
                                   if isinstance(c, ast.Call))
                 if validates and appends_none and appends_err:
                     good = True
-            r.check(good, 'make_decorator._func: per-argument validation', 'schema(arg) recorded as None / Invalid per argument',
-                    'the per-argument validation loop no longer records a failure for an argument that does not validate '
-                    '(try: schema(arg); errors.append(None) / except Invalid as e: errors.append(e))', fn.loc)
+            via_helper = None
+            if not good:
+                # the try/except may live in a helper that returns the error (or None) for one argument
+                for h in helpers:
+                    for t in lib.stmts_in(h.node, ast.Try):
+                        hs = [x for x in t.handlers if 'Invalid' in lib.handler_class_names(x)]
+                        calls_schema = any(isinstance(c, ast.Call) and isinstance(c.func, ast.Name) and c.func.id in h.params
+                                           for s_ in t.body for c in ast.walk(s_))
+                        returns_err = any(isinstance(x, ast.Return) and isinstance(x.value, ast.Name) and x.value.id == hh.name
+                                          for hh in hs for s_ in hh.body for x in ast.walk(s_))
+                        returns_none = any(isinstance(x, ast.Return) and (x.value is None or nf.const_value(x.value, 0) is None)
+                                           for x in lib.returns_of(h.node))
+                        if hs and calls_schema and returns_err and returns_none:
+                            via_helper = h
+                if via_helper is not None:
+                    used_in_comp = any(isinstance(c, ast.Call) and nf.callee_name(c) == via_helper.name for c in walk_own(node))
+                    good = used_in_comp
+            if good:
+                r.ok('make_decorator._func: per-argument validation', 'schema(arg) recorded as None / Invalid per argument%s'
+                     % (' (in %s)' % via_helper.name if via_helper is not None else ''), fn.loc)
+            elif unrev or not trys and helpers:
+                r.undecided('make_decorator._func: per-argument validation', 'validation of the arguments not recognised', fn.loc)
+            else:
+                r.violation('make_decorator._func: per-argument validation',
+                            'the per-argument validation loop no longer records a failure for an argument that does not validate '
+                            '(try: schema(arg); errors.append(None) / except Invalid as e: errors.append(e))', fn.loc)
             # after the gate every path raises ArgumentShapeError
             after = [s for s in node.body if s.lineno > gate.end_lineno] if gate in node.body else []
             if not after:
@@ -925,7 +1089,7 @@ def d4_decorator(ctx, idx, env):
                 isinstance(s.targets[0], ast.Attribute) and s.targets[0].attr == 'validated'
                 and isinstance(s.targets[0].value, ast.Name) and s.targets[0].value.id == node.name]
         if not flag:
-            r.violation('make_decorator.decorator: validated flag', '`_func.validated = True` is gone: eval_function validates the arity '
+            _absent(r, idx, dec, 'make_decorator.decorator: validated flag', '`_func.validated = True` is gone: eval_function validates the arity '
                         'of the wrapper (*args) itself and refuses every call', dec.loc, expected='_func.validated = True')
         else:
             r.check(nf.const_value(flag[0].value, 0) is True, 'make_decorator.decorator: validated flag', 'set to True',
@@ -1030,7 +1194,7 @@ def d4_evalfn(ctx, idx, env):
         aname = call.args[0].value.id if isinstance(call.args[0].value, ast.Name) else None
         vcalls = lib.calls_named(fi.node, 'validate_function_call')
         if not vcalls:
-            r.violation('eval_function: arity validation', 'validate_function_call is no longer called: a user function called with '
+            _absent(r, idx, fi, 'eval_function: arity validation', 'validate_function_call is no longer called: a user function called with '
                         'the wrong number of arguments fails with a TypeError recast as a misleading domain error', fi.loc)
         else:
             v = vcalls[0]
@@ -1080,8 +1244,13 @@ def d4_evalfn(ctx, idx, env):
             for src, dst in want:
                 construct = 'eval_function: except %s' % src
                 hs = [h for h in tr.handlers if src in lib.handler_class_names(h)]
+                dispatching = [h for h in tr.handlers if any(isinstance(c, ast.Call) and nf.callee_name(c) in ('isinstance', 'type')
+                                                             for s_ in h.body for c in ast.walk(s_))]
+                if not hs and dispatching:
+                    r.undecided(construct, 'no separate handler; a merged handler dispatches on the exception type', lib.loc(fi, tr))
+                    continue
                 if not hs:
-                    r.violation(construct, 'handler missing: %s' % ('student-facing errors raised inside a function (domain errors) '
+                    _absent(r, idx, fi, construct, 'handler missing: %s' % ('student-facing errors raised inside a function (domain errors) '
                                 'are recast as a generic FunctionEvalError' if dst is None else
                                 '%s raised while evaluating a function is no longer turned into %s' % (src, dst)), lib.loc(fi, tr),
                                 expected='except %s' % src)
@@ -1121,7 +1290,7 @@ def d4_evalfn(ctx, idx, env):
         b = {'_F': ast.Name(id=vf.params[0], ctx=ast.Load()), '_A': ast.Name(id=vf.params[2], ctx=ast.Load())}
         rs = [p for p in paths if p.leaf.kind == 'raise']
         if not rs:
-            r.violation('validate_function_call', 'no longer raises for a wrong number of arguments', vf.loc, expected='raise ArgumentError')
+            _absent(r, idx, vf, 'validate_function_call', 'no longer raises for a wrong number of arguments', vf.loc, expected='raise ArgumentError')
         for p in rs:
             cls = nf.exc_class_name(p.leaf.expr)
             r.check(cls == 'ArgumentError', 'validate_function_call: error class', 'ArgumentError',
@@ -1160,7 +1329,13 @@ def d4_evalfn(ctx, idx, env):
             pats = ['sum([inspect.signature(_C).parameters[_K].default == inspect.Parameter.empty for _K in inspect.signature(_C).parameters])',
                     'sum((inspect.signature(_C).parameters[_K].default == inspect.Parameter.empty for _K in inspect.signature(_C).parameters))',
                     'sum([inspect.signature(_C).parameters[_K].default is inspect.Parameter.empty for _K in inspect.signature(_C).parameters])',
-                    'len([_K for _K in inspect.signature(_C).parameters if inspect.signature(_C).parameters[_K].default == inspect.Parameter.empty])']
+                    'len([_K for _K in inspect.signature(_C).parameters if inspect.signature(_C).parameters[_K].default == inspect.Parameter.empty])',
+                    'sum((_P.default == inspect.Parameter.empty for _P in inspect.signature(_C).parameters.values()))',
+                    'sum([_P.default == inspect.Parameter.empty for _P in inspect.signature(_C).parameters.values()])',
+                    'sum((_P.default is inspect.Parameter.empty for _P in inspect.signature(_C).parameters.values()))',
+                    'sum([_P.default is inspect.Parameter.empty for _P in inspect.signature(_C).parameters.values()])',
+                    'sum((1 for _P in inspect.signature(_C).parameters.values() if _P.default == inspect.Parameter.empty))',
+                    'len([_P for _P in inspect.signature(_C).parameters.values() if _P.default == inspect.Parameter.empty])']
             res = nf.classify(pats, rest[0].leaf.expr, dict(b))
             if res == nf.MATCH:
                 r.ok('get_number_of_args [signature]', 'counts parameters without default', lib.loc(gf, rest[0].leaf.stmt))
@@ -1218,18 +1393,74 @@ def d5_numpy_state(ctx, idx):
         if handler is not None:
             want = {'divide by zero': 'ZeroDivisionError', 'overflow': 'OverflowError', 'value': 'ValueError'}
             got = {}
-            for p in nf.decision_paths(handler.node.body):
+            understood = True
+            err_param = handler.params[0] if handler.params else None
+            loops = lib.loops_of(handler.node)
+            # (a) dispatch table: for fragment, cls in TABLE: if fragment in err: raise cls
+            for lp in loops:
+                ok_loop = False
+                if isinstance(lp, ast.For) and isinstance(lp.target, (ast.Tuple, ast.List)) and len(lp.target.elts) == 2 \
+                        and all(isinstance(t, ast.Name) for t in lp.target.elts) and len(lp.body) == 1 and isinstance(lp.body[0], ast.If):
+                    frag, cls = lp.target.elts[0].id, lp.target.elts[1].id
+                    test = lp.body[0].test
+                    body = lp.body[0].body
+                    raises_cls = len(body) == 1 and isinstance(body[0], ast.Raise) and (
+                        (isinstance(body[0].exc, ast.Name) and body[0].exc.id == cls) or
+                        (isinstance(body[0].exc, ast.Call) and isinstance(body[0].exc.func, ast.Name) and body[0].exc.func.id == cls))
+                    if nf.classify('%s in %s' % (frag, err_param), test) == nf.MATCH and raises_cls and not lp.body[0].orelse:
+                        try:
+                            tab = tables.evaluator(idx).eval(lp.iter, tables.Scope(handler.module))
+                        except tables.Unsupported:
+                            tab = None
+                        if tab is not None and tab.kind == 'dict':
+                            pairs = tab.items
+                        elif tab is not None and tab.kind in ('tuple', 'list') and all(x.kind in ('tuple', 'list') and len(x.args) == 2 for x in tab.args):
+                            pairs = [(x.args[0], x.args[1]) for x in tab.args]
+                        else:
+                            pairs = None
+                        if pairs is not None and all(k.kind == 'const' and isinstance(k.value, str) for k, _ in pairs):
+                            ok_loop = True
+                            for k, v in pairs:
+                                got.setdefault(k.value, v.text().split('.')[-1])
+                if not ok_loop:
+                    understood = False
+            # (b) if-chain
+            try:
+                paths = nf.decision_paths(handler.node.body)
+            except AnalysisError:
+                paths, understood = [], False
+            for p in paths:
                 if p.leaf.kind != 'raise':
+                    if loops:
+                        continue
                     r.violation(handler.name, 'a path returns instead of raising: the floating-point error is ignored and nan/inf is '
                                 'used as the value', handler.loc)
                     continue
                 pos = [g for g in p.guards if isinstance(g, ast.Compare) and isinstance(g.ops[0], ast.In) and isinstance(g.left, ast.Constant)]
                 if pos:
-                    got[pos[-1].left.value] = nf.exc_class_name(p.leaf.expr)
+                    got.setdefault(pos[-1].left.value, nf.exc_class_name(p.leaf.expr))
+            if loops and not lib.raises_of(handler.node):
+                understood = False
+            if loops:
+                # after the dispatch loop the function must still raise (unknown error kinds are not swallowed)
+                hcfg = cfg_of(handler.node)
+                if hcfg.reaches([hcfg.entry], [hcfg.exit_return]):
+                    if understood:
+                        r.violation(handler.name, 'a path returns instead of raising: a floating-point error whose description matches no '
+                                    'entry is ignored and nan/inf is used as the value', handler.loc)
             for k, v in want.items():
-                r.check(got.get(k) == v, "%s: '%s'" % (handler.name, k), v,
-                        "'%s' errors raise %s instead of %s: eval_function then reports the wrong kind of error" % (k, got.get(k), v),
-                        handler.loc, expected=v, found=str(got.get(k)))
+                construct = "%s: '%s'" % (handler.name, k)
+                if got.get(k) == v:
+                    r.ok(construct, v, handler.loc)
+                elif got.get(k) is None:
+                    if understood and not loops and not _private_callees(idx, handler):
+                        r.violation(construct, "'%s' errors are no longer turned into %s (no branch of the handler tests for them)" % (k, v),
+                                    handler.loc, expected=v, found='no branch')
+                    else:
+                        r.undecided(construct, 'mapping of numpy error descriptions to exceptions not recognised', handler.loc)
+                else:
+                    r.violation(construct, "'%s' errors raise %s instead of %s: eval_function then reports the wrong kind of error"
+                                % (k, got.get(k), v), handler.loc, expected=v, found=str(got.get(k)))
 
 
 # ------------------------------------------------------------------------ self-test
@@ -1314,5 +1545,21 @@ BENIGN = [
     Benign('gate-generator', SD, "                if all([error is None for error in errors]):", "                if all((error is None for error in errors)):"),
     Benign('arccot-conditional-inverted', MF, "    if np.real(val) < 0:\n        return -np.pi / 2 - np.arctan(val)\n    else:\n        return np.pi / 2 - np.arctan(val)",
            "    if np.real(val) >= 0:\n        return np.pi / 2 - np.arctan(val)\n    return -np.pi / 2 - np.arctan(val)"),
+    Benign('arccot-conditional-offset', MF, "    if np.real(val) < 0:\n        return -np.pi / 2 - np.arctan(val)\n    else:\n        return np.pi / 2 - np.arctan(val)",
+           "    quarter_turn = -np.pi / 2 if np.real(val) < 0 else np.pi / 2\n    return quarter_turn - np.arctan(val)"),
+    Benign('kronecker-conditional-expression', MF, "    if x == y:\n        return 1\n    return 0", "    return 1 if x == y else 0"),
+    Benign('scalar-table-from-items', MF, "SCALAR_FUNCTIONS = {key: has_one_scalar_input(key)(ELEMENTWISE_FUNCTIONS[key])\n                    for key in ELEMENTWISE_FUNCTIONS}\n\nSCALAR_FUNCTIONS['arctan2'] = arctan2\nSCALAR_FUNCTIONS['kronecker'] = kronecker",
+           "SCALAR_FUNCTIONS = {name: has_one_scalar_input(name)(func)\n                    for name, func in ELEMENTWISE_FUNCTIONS.items()}\n\nSCALAR_FUNCTIONS.update([('arctan2', arctan2), ('kronecker', kronecker)])"),
+    Benign('multi-scalar-comprehension', MF, "MULTI_SCALAR_FUNCTIONS = {\n    'min': has_at_least_2_scalar_inputs('min')(min),\n    'max': has_at_least_2_scalar_inputs('max')(max)\n}",
+           "MULTI_SCALAR_FUNCTIONS = {name: has_at_least_2_scalar_inputs(name)(func)\n                          for name, func in (('min', min), ('max', max))}"),
+    Benign('content-if-0d-statements', MF, "    return obj.item() if isinstance(obj, np.ndarray) and obj.ndim == 0 else obj",
+           "    if isinstance(obj, np.ndarray) and obj.ndim == 0:\n        return obj.item()\n    return obj"),
+    Benign('np-handler-dispatch-table', EXPR, "    if 'divide by zero' in err:\n        raise ZeroDivisionError\n    elif 'overflow' in err:\n        raise OverflowError\n    elif 'value' in err:\n        raise ValueError\n    else:  # pragma: no cover\n        raise Exception(err)",
+           "    for fragment, error_class in (('divide by zero', ZeroDivisionError), ('overflow', OverflowError), ('value', ValueError)):\n        if fragment in err:\n            raise error_class\n    raise Exception(err)"),
+    Benign('number-of-args-values-generator', GNA, "    params = inspect.signature(callable_obj).parameters\n    empty = inspect.Parameter.empty\n    return sum([params[key].default == empty for key in params])",
+           "    parameters = inspect.signature(callable_obj).parameters.values()\n    return sum(param.default == inspect.Parameter.empty for param in parameters)"),
+    Benign('count-check-raises-directly', SD, "                    if len(args) < min_length:\n                        msg = (\"Wrong number of arguments passed to {func_name}(...): \"\n                               \"Expected at least {expected} inputs, but received {received}.\"\n                               .format(func_name=func_name,\n                                       expected=min_length,\n                                       received=len(args)))",
+           "                    if len(args) < min_length:\n                        raise ArgumentError(\"Wrong number of arguments passed to {func_name}(...): \"\n                               \"Expected at least {expected} inputs, but received {received}.\"\n                               .format(func_name=func_name,\n                                       expected=min_length,\n                                       received=len(args)))"),
+    Benign('shape-gate-not-any', SD, "                if all([error is None for error in errors]):", "                if not any(error is not None for error in errors):"),
     Benign('kronecker-else', MF, "    if x == y:\n        return 1\n    return 0", "    if x != y:\n        return 0\n    else:\n        return 1"),
 ]
